@@ -54,17 +54,6 @@ theorem nextBar_total (s : AverageTrueRange F) (b : Bar F) (h : WF s) :
   cases hr
   exact ⟨_, nextBar_eq s b, ⟨hw⟩, hp⟩
 
-theorem reset_eq (s : AverageTrueRange F) (h : WF s) : s.reset = some (fresh s.period_fn) := by
-  unfold reset
-  simp [TrueRange.reset_eq, ExponentialMovingAverage.reset_eq _ h.ema, fresh, period_fn,
-    ExponentialMovingAverage.period_fn_eq]
-
 theorem period_fn_eq (s : AverageTrueRange F) : s.period_fn = s.ema.period := rfl
-theorem display_eq (fmt : F → String) (s : AverageTrueRange F) :
-    display fmt s = "ATR(" ++ toString s.ema.period ++ ")" := rfl
-theorem default_eq : (default_ : Option (AverageTrueRange F)) = some (fresh 14) := by
-  unfold default_
-  rw [new_eq]
-  simp [unwrap]
 
 end TaRs.Gen.AverageTrueRange
